@@ -12,6 +12,9 @@
 //!   3. requires Ok/Err only (no panic), no single allocation above
 //!      64*len + 1 MiB, and for Ok results no more string/bytes payload or
 //!      elements than input bytes.
+//! Every Ok is also re-parsed by an independent strict wire-format checker
+//! (`vc_onnx::strict`): lengths must fit their parent, packed fixed fields must be
+//! whole elements, varints may not cross the end of their message.
 //! Sub-check specific oracles: a valid model cut inside a top-level LEN field
 //! must be rejected; a writer-made model must decode to exactly what was
 //! written.
@@ -100,6 +103,23 @@ struct NCase {
     shape: u8,
     /// number of repetitions of the recursive unit
     depth: u32,
+}
+
+/// One LEN field with a slightly wrong declared length (or a packed fixed
+/// field with stray bytes) as the *last* field of a message at the end of a
+/// schema path; every enclosing length is exact.
+#[derive(Clone, Debug, Serialize, Deserialize)]
+struct NGCase {
+    /// index into `nest_paths()`
+    path: u16,
+    /// index into the LEN-capable fields of the innermost message kind (last = an unknown field)
+    field: u8,
+    /// index into `NG_VARIANTS`
+    variant: u8,
+    /// append `ir_version = 9` after the outermost message, so that a small
+    /// overshoot exceeds the parent but not the input
+    trail: bool,
+    chunk: u8,
 }
 
 #[derive(Clone, Debug, Serialize, Deserialize)]
@@ -385,6 +405,144 @@ fn nest_oracle(c: &NCase) -> Verdict {
     Verdict::pass_l(c.depth >= 2, labels)
 }
 
+/// All message-nesting paths of the ONNX schema from ModelProto down (field
+/// number, child kind); Graph/Node/Attribute/Type may occur twice so that
+/// sub-graph attributes and nested sequence types are covered.
+fn nest_paths() -> &'static [Vec<(u32, grammar::K)>] {
+    use grammar::{schema, F, K};
+    static P: std::sync::OnceLock<Vec<Vec<(u32, K)>>> = std::sync::OnceLock::new();
+    fn rec(kind: K, path: &mut Vec<(u32, K)>, out: &mut Vec<Vec<(u32, K)>>) {
+        out.push(path.clone());
+        if path.len() >= 8 {
+            return;
+        }
+        for (num, f) in schema(kind) {
+            if let F::Msg(k2) = f {
+                let seen = path.iter().filter(|(_, k)| k == k2).count();
+                let limit = if matches!(k2, K::Graph | K::Node | K::Attr | K::Type | K::TypeSeq) { 2 } else { 1 };
+                if seen < limit {
+                    path.push((*num, *k2));
+                    rec(*k2, path, out);
+                    path.pop();
+                }
+            }
+        }
+    }
+    P.get_or_init(|| {
+        let mut out = Vec::new();
+        rec(K::Model, &mut Vec::new(), &mut out);
+        out
+    })
+}
+
+#[derive(Clone, Copy)]
+enum NgVariant {
+    /// declared = actual + d
+    Delta(i32),
+    /// packed fixed fields only: n whole elements + stray pattern, exact length
+    Stray(u8, u8),
+}
+
+fn ng_variants() -> Vec<NgVariant> {
+    let mut v: Vec<NgVariant> = [-1, 1, 2, 3, 8].into_iter().map(NgVariant::Delta).collect();
+    for n in [0u8, 2] {
+        for p in 0..grammar::STRAY_PATTERNS.len() as u8 {
+            v.push(NgVariant::Stray(n, p));
+        }
+    }
+    v
+}
+
+/// LEN-capable fields of a message kind, plus an unknown field number.
+fn ng_fields(k: grammar::K) -> Vec<(u32, Option<grammar::F>)> {
+    use grammar::F;
+    let mut v: Vec<(u32, Option<F>)> = grammar::schema(k)
+        .iter()
+        .filter(|(_, f)| matches!(f, F::Str | F::Bytes | F::Msg(_) | F::RepVar | F::RepF32 | F::RepF64))
+        .map(|(n, f)| (*n, Some(*f)))
+        .collect();
+    v.push((30, None));
+    v
+}
+
+/// Builds the record tree; returns None when the variant does not apply to the field.
+fn ng_build(c: &NGCase) -> Option<(Vec<Rec>, bool, &'static str)> {
+    use grammar::F;
+    let paths = nest_paths();
+    let path = &paths[c.path as usize % paths.len()];
+    let kind = path.last().map(|(_, k)| *k).unwrap_or(grammar::K::Model);
+    let fields = ng_fields(kind);
+    let (num, f) = fields[c.field as usize % fields.len()];
+    let variants = ng_variants();
+    let variant = variants[c.variant as usize % variants.len()];
+    let len_of = |d: i32| if d >= 0 { Len::Plus(d as u32) } else { Len::Minus((-d) as u32) };
+    let trail_len = 2i32;
+    let (rec, must_err, label): (Rec, bool, &'static str) = match (variant, f) {
+        (NgVariant::Stray(n, p), Some(F::RepF32 | F::RepF64)) => {
+            let wide = f == Some(F::RepF64);
+            let stray = grammar::STRAY_PATTERNS[p as usize].to_vec();
+            let total = n as usize * if wide { 8 } else { 4 } + stray.len();
+            let bad = total % if wide { 8 } else { 4 } != 0;
+            (Rec::PackedFix { num, len: Len::Exact, wide, n, stray }, bad, "ng:packed-fixed-stray-bytes")
+        }
+        (NgVariant::Stray(..), _) => return None,
+        (NgVariant::Delta(d), f) => {
+            let len = len_of(d);
+            let (rec, actual, elem): (Rec, i32, i32) = match f {
+                Some(F::Msg(_)) => (Rec::Msg { num, len, lpad: 0, fields: vec![] }, 0, 1),
+                Some(F::RepVar) => (Rec::PackedVar { num, len, elems: (1..=3).map(|v| grammar::V { v, pad: 0 }).collect(), cut: 0 }, 3, 1),
+                Some(F::RepF32) => (Rec::PackedFix { num, len, wide: false, n: 2, stray: vec![] }, 8, 4),
+                Some(F::RepF64) => (Rec::PackedFix { num, len, wide: true, n: 1, stray: vec![] }, 8, 8),
+                _ => (Rec::Bytes { num, len, lpad: 0, data: b"ab".to_vec() }, 2, 1),
+            };
+            // Declared length exceeds what is left of the parent: the field is
+            // the last one of its message and every enclosing length is exact.
+            // (At top level the trailing ir_version record belongs to the same
+            // message, so a small overshoot just swallows it.)
+            let exceeds = d > 0 && (!path.is_empty() || !c.trail || d > trail_len);
+            let misaligned = (actual + d).max(0) % elem != 0;
+            (rec, exceeds || misaligned, if d > 0 { "ng:len-overshoots-parent" } else { "ng:len-undershoots" })
+        }
+    };
+    // wrap in the path, innermost first; a sibling before the target at each level
+    let mut inner = vec![rec];
+    for (num, _) in path.iter().rev() {
+        inner = vec![Rec::Msg { num: *num, len: Len::Exact, lpad: 0, fields: inner }];
+    }
+    if c.trail {
+        inner.push(Rec::Varint { num: 1, v: grammar::V { v: 9, pad: 0 } });
+    } else {
+        inner.insert(0, Rec::Varint { num: 1, v: grammar::V { v: 9, pad: 0 } });
+    }
+    Some((inner, must_err, label))
+}
+
+fn nest_grid_oracle(c: &NGCase) -> Verdict {
+    let Some((recs, must_err, label)) = ng_build(c) else { return Verdict::Discard };
+    let bytes = grammar::encode(&recs);
+    let depth = nest_paths()[c.path as usize % nest_paths().len()].len();
+    let labels = vec![
+        label,
+        match depth {
+            0 => "ng:depth-0",
+            1..=2 => "ng:depth-1-2",
+            3..=4 => "ng:depth-3-4",
+            _ => "ng:depth-5+",
+        },
+        if must_err { "ng:must-be-rejected" } else { "ng:no-expectation" },
+    ];
+    judge(&bytes, c.chunk, labels, true, |rep| {
+        (must_err && rep.is_ok()).then(|| {
+            (
+                "ok:malformed-accepted:by-construction".to_string(),
+                format!(
+                    "a {label} case was decoded as Ok: the last field of a message at nesting depth {depth} declares a length that exceeds what is left of its parent / is not a multiple of the element size"
+                ),
+            )
+        })
+    })
+}
+
 fn fuzz_oracle(c: &FuzzCase) -> Verdict {
     let r = match c.target.as_str() {
         "onnx_decode_counting" => vc_onnx::fuzz_entry_decode_counting(&c.bytes),
@@ -503,7 +661,10 @@ fn main() {
          schema or no schema, with adversarial declared lengths (exact, +n, -n, values around 2^7..2^64, 2^64-k, 2^64-(own header)), \
          over-long and >10-byte varints, wire types 3/4/6/7, packed fields cut mid-varint; (len-grid, exhaustive) one adversarial \
          length from {2^k + d : k in 0,7,14,21,28,31,32,35,40,47,56,62,63,64, |d|<=24} in each of 8 decoder contexts x {0,3,17} \
-         payload bytes present x 2 reader chunk sizes; (mutate) 0-3 structure-aware or byte-level mutations of mnist.onnx, \
+         payload bytes present x 2 reader chunk sizes; (nest-grid, exhaustive) for every message-nesting path of the ONNX schema (Graph/Node/Attribute/Type up to twice) x \
+         every LEN-capable field of the innermost message (+ an unknown field) as its last field: declared length actual-1,+1,+2,+3,+8, \
+         and for packed float/double fields 0 or 2 elements + 8 stray-byte patterns, with and without a trailing top-level record; \
+         (mutate) 0-3 structure-aware or byte-level mutations of mnist.onnx, \
          mnist-external and writer-made models; (truncate, exhaustive for small bases) prefixes of valid models; (roundtrip) \
          random valid models from the writer; (deep-nesting) chains of 1..N embedded graph-attribute / sequence-type messages up to \
          200 KB, decoder stack use measured on a 1 GiB-stack thread. Each input runs through decode-over-CountingReader, parse_buf, is_onnx_model and \
@@ -542,8 +703,31 @@ fn main() {
         );
     }
 
+    // 1b. exhaustive grid: slightly wrong length of the last field, at the end of every schema nesting path
+    if ck.selected("nest-grid") {
+        let paths = nest_paths();
+        let nv = ng_variants().len() as u64;
+        // every applicable (path, field, variant, trail) combination
+        let mut plan: Vec<NGCase> = Vec::new();
+        for (pi, p) in paths.iter().enumerate() {
+            let kind = p.last().map(|(_, k)| *k).unwrap_or(grammar::K::Model);
+            for fi in 0..ng_fields(kind).len() {
+                for v in 0..nv {
+                    for trail in [false, true] {
+                        let c = NGCase { path: pi as u16, field: fi as u8, variant: v as u8, trail, chunk: if plan.len() % 3 == 0 { 1 } else { 0 } };
+                        if ng_build(&c).is_some() {
+                            plan.push(c);
+                        }
+                    }
+                }
+            }
+        }
+        ck.extra("nest-grid", serde_json::json!({"paths": paths.len(), "variants": nv, "cases": plan.len()}));
+        ck.enumerate_par("nest-grid", true, plan.len() as u64, |i| plan[i as usize].clone(), nest_grid_oracle);
+    }
+
     // 2. grammar
-    let n = ck.pick(24_000, 800_000);
+    let n = ck.pick(48_000, 800_000);
     ck.prop("grammar-onnx", n, || (grammar::model_fields(4), 0u8..7).prop_map(|(recs, chunk)| GCase { recs, chunk }), grammar_oracle);
     ck.prop("grammar-free", n / 4, || (grammar::free_fields(), 0u8..7).prop_map(|(recs, chunk)| GCase { recs, chunk }), grammar_oracle);
 
@@ -551,7 +735,7 @@ fn main() {
     let n_bases = mutate::bases().len() as u8;
     ck.prop(
         "mutate",
-        ck.pick(12_000, 300_000),
+        ck.pick(24_000, 300_000),
         move || {
             let base = prop_oneof![5 => Just(0u8), 1 => Just(1u8), 6 => 2u8..n_bases];
             (base, proptest::collection::vec(mutate::mut_strategy(), 0..=3), 0u8..7).prop_map(|(base, muts, chunk)| MCase { base, muts, chunk })
@@ -605,7 +789,7 @@ fn main() {
     // 5. round trip of valid models
     ck.prop(
         "roundtrip",
-        ck.pick(4_000, 80_000),
+        ck.pick(8_000, 80_000),
         || (roundtrip::model_strategy(), 0u8..7).prop_map(|(model, chunk)| RCase { model, chunk }),
         roundtrip_oracle,
     );
